@@ -424,17 +424,28 @@ ClosureFix(M, acc) ==
   LET more == acc \cup UNION {RefsOfNode(M, M[p[1]].types[p[2]].node, p[1]) : p \in acc}
   IN IF more = acc THEN acc ELSE ClosureFix(M, more)
 
-\* the named, canonical form of everything type tn of module mn reaches
-TypeView(M, mn, tn) ==
-  LET mi == ModIdx(M, mn)
-      ti == IF mi = 0 THEN 0 ELSE TypeIdx(M[mi], tn)
-  IN IF ti = 0 THEN {}
-     ELSE {[mod |-> M[p[1]].name, tags |-> M[p[1]].tags, t |-> M[p[1]].types[p[2]]] : p \in ClosureFix(M, {<<mi, ti>>})}
+\* <<module, type>> names of the top-level types on which two dictionaries differ
+DiffNames(A, B) ==
+  LET tab(M) == UNION {{<<M[i].name, M[i].tags, M[i].types[j]>> : j \in 1..Len(M[i].types)} : i \in 1..Len(M)}
+      ta == tab(A)
+      tb == tab(B)
+  IN {<<x[1], x[3].name>> : x \in (ta \ tb) \cup (tb \ ta)}
 
-\* does the compiled form of a type named tn (in any module) differ between two compile results ?
+\* <<module, type>> names of everything a type called tn (in any module) reaches
+ClosureNames(M, tn) ==
+  UNION {IF TypeIdx(M[i], tn) = 0 THEN {}
+         ELSE {<<M[p[1]].name, M[p[1]].types[p[2]].name>> : p \in ClosureFix(M, {<<i, TypeIdx(M[i], tn)>>})}
+         : i \in 1..Len(M)}
+
+\* per compiler (codec, type checker, constraints checker) the differing type names
+DiffNamesAll(c1, c2) == Force([k \in 1..3 |-> DiffNames(c1.v[k], c2.v[k])])
+
+TypeDiffersGiven(c1, c2, dns, tn) ==
+  \E k \in 1..3 : dns[k] # {} /\ (ClosureNames(c1.v[k], tn) \cap dns[k] # {} \/ ClosureNames(c2.v[k], tn) \cap dns[k] # {})
+
+\* does the compiled form of a type named tn differ between two compile results ?
 TypeDiffers(c1, c2, tn) ==
   \/ c1.err # c2.err
-  \/ c1.err = "" /\ \E k \in 1..3 : \E i \in 1..Len(c1.v[k]) :
-        TypeView(c1.v[k], c1.v[k][i].name, tn) # TypeView(c2.v[k], c1.v[k][i].name, tn)
+  \/ c1.err = "" /\ TypeDiffersGiven(c1, c2, DiffNamesAll(c1, c2), tn)
 
 =============================================================================
